@@ -1,7 +1,12 @@
 (* The closed form of C10/C12: in a plain tree (no window, no timeout, no forever job, handlers that
    take no time), as long as no critical job has reached the instant at which it raises, every job
    -- atomic or nested scheduler -- starts and ends exactly at the instants given by the schedule
-   equations [is_schedule] of RSchedDef.v. *)
+   equations [is_schedule] of RSchedDef.v.
+
+   The development is done for trees WITH timeouts that the schedule does not reach ([plainT] and
+   [slack], C08: a timeout that is longer than the run of its scheduler has no effect, the delay
+   being counted from the beginning of that scheduler's own run); the statements about [plain]
+   trees (no timeout at all) are corollaries. *)
 From AJ Require Import Common.Util Run.RModel Run.RFacts Run.RFacts2 Run.RInv Run.RInv2 Run.RInv3 Run.RInv4
   Run.RInv5 Run.RProps1 Run.RProps3 Run.RWin Run.RProps4 Run.RShut1 Run.RShut2 Run.RTime Run.RInvP Run.RExc
   Run.RProgA Run.RFlat Run.RSchedDef.
@@ -79,18 +84,17 @@ End Schedule.
 
 Section Plain.
   Variable c : cfg.
-  Hypothesis P : plain c = true.
+  Hypothesis P : plainT c = true.
 
-  Lemma plain_job_of x : x < njobs c -> plain_job c x = true.
-  Proof. intros Hx. unfold plain in P. rewrite forallb_forall in P. apply P. apply In_all_ids. exact Hx. Qed.
+  Lemma plain_job_of x : x < njobs c -> plainT_job c x = true.
+  Proof. intros Hx. unfold plainT in P. rewrite forallb_forall in P. apply P. apply In_all_ids. exact Hx. Qed.
 
   Lemma plain_sched n : n < njobs c -> j_sched (jc c n) = true ->
-    j_window (jc c n) = 0 /\ j_timeout (jc c n) = None /\ (n <> 0 -> j_forever (jc c n) = false).
+    j_window (jc c n) = 0 /\ (n <> 0 -> j_forever (jc c n) = false).
   Proof.
-    intros Hn Hs. pose proof (plain_job_of n Hn) as H. unfold plain_job in H. rewrite Hs in H.
-    rewrite !andb_true_iff in H. destruct H as [[H1 H2] H3].
-    apply Nat.eqb_eq in H1. split; [exact H1|]. split.
-    - destruct (j_timeout (jc c n)); [discriminate|reflexivity].
+    intros Hn Hs. pose proof (plain_job_of n Hn) as H. unfold plainT_job in H. rewrite Hs in H.
+    rewrite !andb_true_iff in H. destruct H as [H1 H3].
+    apply Nat.eqb_eq in H1. split; [exact H1|].
     - intros H0. apply orb_true_iff in H3. destruct H3 as [H3|H3].
       + apply Nat.eqb_eq in H3. contradiction.
       + apply negb_true_iff in H3. exact H3.
@@ -99,7 +103,7 @@ Section Plain.
   Lemma plain_atomic x : x < njobs c -> j_sched (jc c x) = false ->
     (exists d, j_dur (jc c x) = Some d) /\ j_forever (jc c x) = false /\ j_sdur (jc c x) = Some 0%N.
   Proof.
-    intros Hx Hs. pose proof (plain_job_of x Hx) as H. unfold plain_job in H. rewrite Hs in H.
+    intros Hx Hs. pose proof (plain_job_of x Hx) as H. unfold plainT_job in H. rewrite Hs in H.
     rewrite !andb_true_iff in H. destruct H as [[H1 H2] H3].
     split; [destruct (j_dur (jc c x)) as [d|]; [exists d; reflexivity|discriminate]|].
     split; [apply negb_true_iff in H2; exact H2|].
@@ -109,7 +113,7 @@ Section Plain.
   Lemma plain_not_forever x : x < njobs c -> x <> 0 -> j_forever (jc c x) = false.
   Proof.
     intros Hx H0. destruct (j_sched (jc c x)) eqn:Es.
-    - destruct (plain_sched x Hx Es) as (_ & _ & H). auto.
+    - destruct (plain_sched x Hx Es) as (_ & H). auto.
     - destruct (plain_atomic x Hx Es) as (_ & H & _). exact H.
   Qed.
 
@@ -149,6 +153,31 @@ Section Plain.
   Qed.
 End Plain.
 
+(* a tree without timeouts is a tree whose timeouts are not reached *)
+Lemma plain_plainT c : plain c = true -> plainT c = true.
+Proof.
+  unfold plain, plainT. rewrite !forallb_forall. intros H x Hx. specialize (H x Hx).
+  unfold plain_job in H. unfold plainT_job. destruct (j_sched (jc c x)); [|exact H].
+  rewrite !andb_true_iff in H. destruct H as [[H1 _] H3]. rewrite H1, H3. reflexivity.
+Qed.
+
+Lemma plain_no_timeout c n : plain c = true -> n < njobs c -> j_sched (jc c n) = true -> j_timeout (jc c n) = None.
+Proof.
+  intros P Hn Hs. unfold plain in P. rewrite forallb_forall in P. specialize (P n (proj2 (In_all_ids c n) Hn)).
+  unfold plain_job in P. rewrite Hs in P. rewrite !andb_true_iff in P. destruct P as [[_ H] _].
+  destruct (j_timeout (jc c n)); [discriminate|reflexivity].
+Qed.
+
+Lemma plain_slack c Sb Ef : plain c = true -> slack c Sb Ef.
+Proof. intros P n T Hn Hs Ht. rewrite (plain_no_timeout c n P Hn Hs) in Ht. discriminate. Qed.
+
+Lemma slackb_sound c lS lE : slackb c lS lE = true -> slack c (tab lS) (tab lE).
+Proof.
+  unfold slackb. rewrite forallb_forall. intros H n T Hn Hs Ht.
+  specialize (H n (proj2 (In_all_ids c n) Hn)). rewrite Hs, Ht in H. cbn [negb orb] in H.
+  apply N.ltb_lt. exact H.
+Qed.
+
 (* ------------------------------------------------------------------ the invariant *)
 
 (* the phases a run goes through when nothing is cancelled, nothing times out and no critical job
@@ -171,7 +200,11 @@ Record Sch (c : cfg) (Sb Ef : nat -> N) (s : state) : Prop := {
   s_over_did : forall n, ph (Rn s n) = POver -> did (Sd s n) = true \/ members c n = [];
   s_hr : forall n, j_sched (jc c n) = true -> hs (Hd s n) <> HRunning;
   s_did : forall n, did (Sd s n) = true -> ph (Rn s n) <> PIdle;
-  s_nce : forall x, crit_exc c s x = false
+  s_nce : forall x, crit_exc c s x = false;
+  (* timeouts: the expiration of a run is counted from its own beginning, and the root does not
+     outlive its schedule while in its main loop (nested schedulers: by s_job) *)
+  s_expi : forall n, ph (Rn s n) = PMain -> expi (Rn s n) = optN_add (Sb n) (j_timeout (jc c n));
+  s_root_main : ph (Rn s 0) = PMain -> (now s <= Ef 0%nat)%N
 }.
 
 Lemma idle_all_init : idle_all init.
@@ -227,7 +260,7 @@ Qed.
 Section State.
   Variables (c : cfg) (Sb Ef : nat -> N) (s : state).
   Hypothesis W : wf c = true.
-  Hypothesis P : plain c = true.
+  Hypothesis P : plainT c = true.
   Hypothesis HS : is_schedule c Sb Ef.
   Hypothesis SD : Std c s.
   Hypothesis SC : Sch c Sb Ef s.
@@ -564,7 +597,7 @@ Proof.
   - destruct Hg as (_ & G & _). rewrite holds_0 in G. rewrite Ep in G. discriminate.
 Qed.
 
-Lemma Sch_tick c Sb Ef s e s' : wf c = true -> plain c = true -> is_schedule c Sb Ef -> Std c s ->
+Lemma Sch_tick c Sb Ef s e s' : wf c = true -> plainT c = true -> is_schedule c Sb Ef -> Std c s ->
   Sch c Sb Ef s -> step 3 c s e = Some s' -> is_tick e = true -> Sch c Sb Ef s'.
 Proof.
   intros W P HS SD SC Hs Ht.
@@ -587,6 +620,12 @@ Proof.
   - rewrite EH. apply (s_hr c Sb Ef s SC).
   - rewrite ER, ES. apply (s_did c Sb Ef s SC).
   - intros x. unfold crit_exc. rewrite EJ. apply (s_nce c Sb Ef s SC x).
+  - rewrite ER. apply (s_expi c Sb Ef s SC).
+  - rewrite ER. intros Ep. destruct (wf_root c W) as [Hrs Hrl].
+    destruct (main_has_undone c s P SD Hq 0 Hrl Hrs Ep) as (m & Hm & Hmd).
+    pose proof (proj1 (In_members c 0 m) Hm) as (Hml & _ & Hm0).
+    pose proof (tick_undone c Sb Ef s W P HS SD SC Hq (now s') Hlt Hdl Hroot m Hml Hm0 Hmd) as H1.
+    pose proof (Ef_ge_member c Sb Ef HS 0 m Hrl Hrs Hm). lia.
 Qed.
 
 (* ------------------------------------------------------------------ two facts about single events *)
@@ -674,13 +713,79 @@ Proof.
   - exfalso. split_guards Hg. rewrite Hst in G0. discriminate.
 Qed.
 
+(* a run enters the exit path "timeout" only from its main loop, at or after its expiration *)
+Lemma timeout_from c s e s' m : step 3 c s e = Some s' -> tmo_ph (ph (Rn s' m)) ->
+  tmo_ph (ph (Rn s m)) \/
+  (ph (Rn s m) = PMain /\ exists x, expi (Rn s m) = Some x /\ (x <= now s)%N).
+Proof.
+  intros Hs. destruct (step_inv _ _ _ _ _ Hs) as [-> Hg].
+  destruct e as [n o|n k d o|n k o|n o|j|j oc|j|j|j|j|j|j|j|j|t0|t0|jv sv]; cbn [reaction fst].
+  - rewrite ph_react_begin. destruct (Nat.eqb m n); [|auto].
+    destruct (members c n); intros [H|H]; discriminate.
+  - destruct k; cbn [reaction fst].
+    + pose proof (HS_react_main c n d s) as H. cbn zeta in H. destruct H as (_ & Ho & _).
+      destruct (Nat.eqb_spec m n) as [->|Hm]; [|rewrite (Ho m Hm); auto].
+      split_guards Hg. rewrite ?holds3 in * by lia.
+      assert (Hph : ph (Rn s n) = PMain) by (destruct (ph (Rn s n)); try discriminate; reflexivity).
+      destruct (react_main_upd c n d s Hph) as (_ & _ & _ & [(w & Hw & _ & _ & _ & Hb)|(Hw & _)]).
+      * intros Ht. right. split; [exact Hph|].
+        assert (Ew : w = WTimeout).
+        { destruct Ht as [Ht|Ht], Hw as [Hw|Hw]; rewrite Ht in Hw; inversion Hw; reflexivity. }
+        subst w. destruct Hb as [-> _].
+        match goal with G : opt_le_now s (expi (Rn s n)) = true |- _ =>
+          unfold opt_le_now in G; destruct (expi (Rn s n)) as [x|]; [|discriminate];
+          exists x; split; [reflexivity|apply N.leb_le; exact G] end.
+      * rewrite Hw. intros [H|H]; discriminate.
+    + pose proof (HS_react_tidy c n s) as H. cbn zeta in H. destruct H as (_ & Ho & H).
+      destruct (Nat.eqb_spec m n) as [->|Hm]; [|rewrite (Ho m Hm); auto].
+      split_guards Hg.
+      destruct H as [(_ & H & _)|(_ & H & _)]; rewrite H; [intros [K|K]; discriminate|].
+      unfold why_of. destruct (ph (Rn s n)) as [| |w|w| |]; try discriminate.
+      intros [K|K]; [discriminate|]. inversion K. left. left. reflexivity.
+    + rewrite ph_end_cancelled. destruct (Nat.eqb m n); [|auto]. intros [H|H]; discriminate.
+    + pose proof (HS_react_shut c n d (culprit_of o) s) as H. cbn zeta in H. destruct H as (_ & Ho & H).
+      destruct (Nat.eqb_spec m n) as [->|Hm]; [|rewrite (Ho m Hm); auto].
+      destruct d as [|d0 d'].
+      * destruct H as (_ & H). destruct (sd_inline s n).
+        -- destruct H as [H _]. rewrite H. intros [K|K]; discriminate.
+        -- destruct H as [H _]. rewrite H. auto.
+      * destruct H as (H & _). rewrite H. auto.
+    + pose proof (HS_react_shtidy c n (culprit_of o) s) as H. cbn zeta in H. destruct H as (_ & Ho & _ & H).
+      destruct (Nat.eqb_spec m n) as [->|Hm]; [|rewrite (Ho m Hm); auto].
+      destruct (sd_inline s n).
+      * destruct H as [H _]. rewrite H. intros [K|K]; discriminate.
+      * destruct H as [H _]. rewrite H. auto.
+  - destruct k; cbn [reaction fst].
+    + rewrite ph_react_cancel_main. destruct (Nat.eqb m n); [|auto].
+      destruct (filter _ _); intros [K|K]; discriminate.
+    + rewrite ph_react_cancel_tidy. auto.
+    + rewrite ph_react_cancel_ctidy. auto.
+    + pose proof (HS_react_cancel_shut c n s) as H. cbn zeta in H. destruct H as (_ & Ho & _). rewrite Ho. auto.
+    + pose proof (HS_react_cancel_shut c n s) as H. cbn zeta in H. destruct H as (_ & Ho & _). rewrite Ho. auto.
+  - rewrite Rn_react_sdstart. auto.
+  - unfold eff_start. rewrite ph_bump_q. auto.
+  - unfold eff_finish. rewrite ph_bump_q. auto.
+  - auto.
+  - unfold eff_cancel_over. rewrite ph_bump_q. auto.
+  - unfold eff_cancel_over. rewrite ph_bump_q. auto.
+  - auto.
+  - auto.
+  - auto.
+  - auto.
+  - auto.
+  - auto.
+  - auto.
+  - auto.
+Qed.
+
 (* ------------------------------------------------------------------ a step that is not a clock event *)
 
 Section Step.
   Variables (c : cfg) (Sb Ef : nat -> N) (s s' : state) (e : event).
   Hypothesis W : wf c = true.
-  Hypothesis P : plain c = true.
+  Hypothesis P : plainT c = true.
   Hypothesis HS : is_schedule c Sb Ef.
+  Hypothesis SL : slack c Sb Ef.
   Hypothesis SD : Std c s.
   Hypothesis SD' : Std c s'.
   Hypothesis SC : Sch c Sb Ef s.
@@ -776,11 +881,19 @@ Section Step.
              rewrite Hnil in Hin. destruct Hin.
         * exfalso.
           assert (Hto : tmo_ph (ph (Rn s' n))) by (destruct Hw as [H|H]; rewrite H; [left|right]; reflexivity).
-          assert (Hsi : sched_id c n = true).
-          { apply (t_validr c s' IT'). destruct Hw as [H|H]; rewrite H; discriminate. }
+          (* the timeout would have to fire: but the run is scheduled to end strictly earlier *)
+          destruct (timeout_from c s e s' n Hs Hto) as [Ht0|(_ & x & Hx & Hle)].
+          { destruct Ht0 as [H|H]; rewrite Hpm in H; discriminate. }
+          assert (Hsi : sched_id c n = true) by (apply (t_validr c s IT); rewrite Hpm; discriminate).
           apply sched_id_iff in Hsi. destruct Hsi as [Hsn Hnl].
-          destruct (plain_sched c P n Hnl Hsn) as (_ & Hnt & _).
-          apply (sd_TO c s' SD' n Hto Hnt).
+          rewrite (s_expi c Sb Ef s SC n Hpm) in Hx.
+          destruct (j_timeout (jc c n)) as [T|] eqn:ET; [|discriminate]. cbn [optN_add] in Hx. injection Hx as Hx.
+          pose proof (SL n T Hnl Hsn ET) as Hsl.
+          assert (Hnow : (now s <= Ef n)%N).
+          { destruct (Nat.eq_dec n 0) as [->|H0]; [apply (s_root_main c Sb Ef s SC Hpm)|].
+            assert (Hst : st (Jb s n) = Running) by (apply (k_act c s I3 n H0 Hsn); rewrite Hpm; discriminate).
+            pose proof (s_job c Sb Ef s SC n Hnl H0) as Hj. unfold on_schedule in Hj. rewrite Hst in Hj. tauto. }
+          lia.
         * exfalso. destruct Hm as (_ & Hm & _). apply existsb_exists in Hm. destruct Hm as (x & _ & Hx).
           rewrite (s_nce c Sb Ef s SC x) in Hx. discriminate.
   Qed.
@@ -875,6 +988,31 @@ Section Step.
       apply (done_Ef c Sb Ef s SC r); [lia|exact Hr0|].
       assert (Hg : all_done s (reqs c x) = true) by (apply (i_gate c s I1 x); rewrite Est; discriminate).
       unfold all_done in Hg. rewrite forallb_forall in Hg. apply Hg. exact Hr.
+  Qed.
+
+  Lemma step_expi n : ph (Rn s' n) = PMain -> expi (Rn s' n) = optN_add (Sb n) (j_timeout (jc c n)).
+  Proof.
+    intros Ep'. destruct (run_clock_step 3 c s e s' n Hs) as [[He Hi]|(o & Ee & He & Hv)].
+    - rewrite He. destruct (main_from 3 c s e s' n W I1 Hs Ep') as [E|E].
+      + apply (s_expi c Sb Ef s SC n E).
+      + rewrite (Hi E) in Ep'. discriminate.
+    - (* the run begins: it is the instant Sb n *)
+      rewrite He. f_equal. apply sched_id_iff in Hv. destruct Hv as [Hsn Hnl].
+      destruct (step_inv _ _ _ _ _ Hs) as [_ Hg]. rewrite Ee in Hg. split_guards Hg.
+      destruct (Nat.eq_dec n 0) as [->|H0].
+      + cbn [rootb Nat.eqb] in G0. destruct (ph (Rn s 0)) eqn:Ep; try discriminate.
+        destruct (s_root_idle c Sb Ef s SC Ep) as [_ E0]. rewrite E0, (Sb_root c Sb Ef HS). reflexivity.
+      + assert (Er : rootb n = false) by (apply rootb_false; exact H0). rewrite Er in G0.
+        destruct (st (Jb s n)) eqn:Est; try discriminate.
+        pose proof (created_Sb n Hnl H0 Est) as H1.
+        pose proof (s_job c Sb Ef s SC n Hnl H0) as Hj. unfold on_schedule in Hj. rewrite Est in Hj. lia.
+  Qed.
+
+  Lemma step_root_main : ph (Rn s' 0) = PMain -> (now s' <= Ef 0%nat)%N.
+  Proof.
+    intros Ep'. rewrite En. destruct (main_from 3 c s e s' 0 W I1 Hs Ep') as [E|E].
+    - apply (s_root_main c Sb Ef s SC E).
+    - destruct (s_root_idle c Sb Ef s SC E) as [_ E0]. rewrite E0. lia.
   Qed.
 
   Lemma step_job x : x < njobs c -> x <> 0 -> on_schedule c Sb Ef s' x.
@@ -1080,6 +1218,8 @@ Section Step.
     - apply step_hr.
     - apply step_did.
     - apply step_nce.
+    - apply step_expi.
+    - apply step_root_main.
   Qed.
 End Step.
 
@@ -1096,10 +1236,10 @@ Qed.
 Lemma calm_back c Ef s s' : (now s <= now s')%N -> calm c Ef s' -> calm c Ef s.
 Proof. intros Hle Hc x Hx Hb. specialize (Hc x Hx Hb). lia. Qed.
 
-Theorem Sch_reach c Sb Ef h s : wf c = true -> plain c = true -> is_schedule c Sb Ef ->
+Theorem Sch_reach c Sb Ef h s : wf c = true -> plainT c = true -> is_schedule c Sb Ef -> slack c Sb Ef ->
   Reach 3 c h s -> calm c Ef s -> Sch c Sb Ef s.
 Proof.
-  intros W P HS Hr. revert h s Hr. apply (reach_ind 3 c (fun _ s => calm c Ef s -> Sch c Sb Ef s)).
+  intros W P HS SL Hr. revert h s Hr. apply (reach_ind 3 c (fun _ s => calm c Ef s -> Sch c Sb Ef s)).
   - intros _. apply Sch_init. apply (Sb_root c Sb Ef HS).
   - intros h s e s' Hr IH Hs Hc'.
     assert (Hc : calm c Ef s) by (apply (calm_back c Ef s s' (now_mono_step c s e s' W Hs) Hc')).
@@ -1108,8 +1248,142 @@ Proof.
     pose proof (Std_reach c (h ++ [e]) s' W (reach_snoc 3 c h e s s' Hr Hs)) as SD'.
     destruct (is_tick e) eqn:Et.
     + apply (Sch_tick c Sb Ef s e s' W P HS SD SC Hs Et).
-    + apply (Sch_step c Sb Ef s s' e W P HS SD SD' SC Hs Et Hc').
+    + apply (Sch_step c Sb Ef s s' e W P HS SL SD SD' SC Hs Et Hc').
 Qed.
+
+(* ------------------------------------------------------------------ trees with timeouts (C08) *)
+
+(* C08/C10/C12 in closed form: as long as no critical job has reached the instant at which it
+   raises, every job of a tree whose timeouts are longer than the scheduled runs is where the
+   schedule OF THE TREE WITHOUT ITS TIMEOUTS says ([is_schedule] does not mention timeouts) *)
+Theorem runs_on_schedule_timeouts c S E h s :
+  wf c = true -> plainT c = true -> is_schedule c S E -> slack c S E ->
+  Reach 3 c h s -> calm c E s ->
+  forall x, x < njobs c -> x <> 0 -> on_schedule c S E s x.
+Proof.
+  intros W P HS SL Hr Hc x Hx H0. apply (s_job c S E s (Sch_reach c S E h s W P HS SL Hr Hc) x Hx H0).
+Qed.
+
+(* ... and no timeout ever fires: no run is ever in a timeout, critical or cancelled phase, and
+   the expiration of a run in its main loop is T after the beginning S n of that very run (for the
+   root, S 0 = 0: T after the beginning of the whole execution) *)
+Theorem timeouts_never_fire c S E h s :
+  wf c = true -> plainT c = true -> is_schedule c S E -> slack c S E ->
+  Reach 3 c h s -> calm c E s ->
+  forall n, n < njobs c -> j_sched (jc c n) = true ->
+    okph (ph (Rn s n)) /\
+    (ph (Rn s n) = PMain -> forall T, j_timeout (jc c n) = Some T -> expi (Rn s n) = Some (S n + T)%N).
+Proof.
+  intros W P HS SL Hr Hc n Hn Hs. pose proof (Sch_reach c S E h s W P HS SL Hr Hc) as SC.
+  split; [apply (s_ph c S E s SC n)|]. intros Ep T HT. rewrite (s_expi c S E s SC n Ep), HT. reflexivity.
+Qed.
+
+(* more precisely: while the run of n is in its main loop the clock is strictly before the
+   expiration; flags and verdicts: the run never records a timeout *)
+Corollary expiration_ahead c S E h s :
+  wf c = true -> plainT c = true -> is_schedule c S E -> slack c S E ->
+  Reach 3 c h s -> calm c E s ->
+  forall n T, n < njobs c -> j_sched (jc c n) = true -> j_timeout (jc c n) = Some T ->
+    ph (Rn s n) = PMain -> (now s <= E n)%N /\ (E n < S n + T)%N /\ expi (Rn s n) = Some (S n + T)%N.
+Proof.
+  intros W P HS SL Hr Hc n T Hn Hs HT Ep. pose proof (Sch_reach c S E h s W P HS SL Hr Hc) as SC.
+  pose proof (Std_reach c h s W Hr) as SD.
+  split; [|split; [apply (SL n T Hn Hs HT)|rewrite (s_expi c S E s SC n Ep), HT; reflexivity]].
+  destruct (Nat.eq_dec n 0) as [->|H0]; [apply (s_root_main c S E s SC Ep)|].
+  assert (Hst : st (Jb s n) = Running).
+  { apply (k_act c s (ic_3 c s (id_c c s (ie_d c s (sd_E c s SD)))) n H0 Hs); rewrite Ep; discriminate. }
+  pose proof (s_job c S E s SC n Hn H0) as H. unfold on_schedule in H. rewrite Hst in H. tauto.
+Qed.
+
+Corollary not_started_before_timeouts c S E h s x :
+  wf c = true -> plainT c = true -> is_schedule c S E -> slack c S E ->
+  Reach 3 c h s -> calm c E s -> x < njobs c -> x <> 0 ->
+  (now s < S x)%N -> st (Jb s x) = Idle \/ st (Jb s x) = Created.
+Proof.
+  intros W P HS SL Hr Hc Hx H0 Hlt.
+  pose proof (runs_on_schedule_timeouts c S E h s W P HS SL Hr Hc x Hx H0) as H. unfold on_schedule in H.
+  pose proof (Ef_ge_Sb c S E HS x Hx) as Hse.
+  destruct (st (Jb s x)); auto; try contradiction; exfalso; lia.
+Qed.
+
+Corollary running_between_timeouts c S E h s x :
+  wf c = true -> plainT c = true -> is_schedule c S E -> slack c S E ->
+  Reach 3 c h s -> calm c E s -> x < njobs c -> x <> 0 ->
+  (S x < now s)%N -> (now s < E x)%N -> st (Jb s x) = Running.
+Proof.
+  intros W P HS SL Hr Hc Hx H0 Hlt1 Hlt2.
+  pose proof (runs_on_schedule_timeouts c S E h s W P HS SL Hr Hc x Hx H0) as H. unfold on_schedule in H.
+  destruct (st (Jb s x)); auto; try contradiction; exfalso; lia.
+Qed.
+
+Corollary done_after_timeouts c S E h s x :
+  wf c = true -> plainT c = true -> is_schedule c S E -> slack c S E ->
+  Reach 3 c h s -> calm c E s -> x < njobs c -> x <> 0 ->
+  (E x < now s)%N -> is_done (st (Jb s x)) = true.
+Proof.
+  intros W P HS SL Hr Hc Hx H0 Hlt.
+  pose proof (runs_on_schedule_timeouts c S E h s W P HS SL Hr Hc x Hx H0) as H. unfold on_schedule in H.
+  pose proof (Ef_ge_Sb c S E HS x Hx) as Hse.
+  destruct (st (Jb s x)); auto; try contradiction; exfalso; lia.
+Qed.
+
+(* nothing is ever cancelled in a calm run *)
+Corollary calm_never_cancels_timeouts c S E h s :
+  wf c = true -> plainT c = true -> is_schedule c S E -> slack c S E ->
+  Reach 3 c h s -> calm c E s ->
+  (forall x, cp (Jb s x) = false) /\ (forall n, rcanc (Rn s n) = false) /\
+  (forall x, x < njobs c -> x <> 0 -> st (Jb s x) <> Cancelling /\ st (Jb s x) <> Cancelled) /\
+  (forall x, crit_exc c s x = false).
+Proof.
+  intros W P HS SL Hr Hc. pose proof (Sch_reach c S E h s W P HS SL Hr Hc) as SC.
+  split; [apply (s_cp c S E s SC)|]. split; [apply (s_rc c S E s SC)|].
+  split; [intros x Hx H0; apply (not_cancelled c S E s SC x Hx H0)|apply (s_nce c S E s SC)].
+Qed.
+
+(* the run of every scheduler, the root included: it begins at S n, its main loop lasts until E n,
+   and its exit path (tidy, shutdown) takes no time *)
+Theorem runs_phases_on_schedule_timeouts c S E h s :
+  wf c = true -> plainT c = true -> is_schedule c S E -> slack c S E ->
+  Reach 3 c h s -> calm c E s ->
+  forall n, n < njobs c -> j_sched (jc c n) = true ->
+    (ph (Rn s n) = PIdle -> (now s <= S n)%N) /\
+    (ph (Rn s n) = PMain -> (S n <= now s)%N) /\
+    (ph (Rn s n) = POver -> (E n <= now s)%N) /\
+    (* and more: *)
+    okph (ph (Rn s n)) /\
+    (ph (Rn s n) <> PIdle -> (S n <= now s)%N) /\
+    (ph (Rn s n) = PMain -> (now s <= E n)%N) /\
+    (ph (Rn s n) = PTidy WSuccess \/ ph (Rn s n) = PShut WSuccess ->
+     (E n <= now s)%N /\ (n <> 0 -> now s = E n)).
+Proof.
+  intros W P HS SL Hr Hc n Hn Hs.
+  pose proof (Sch_reach c S E h s W P HS SL Hr Hc) as SC.
+  pose proof (Std_reach c h s W Hr) as SD.
+  assert (Hrun : ph (Rn s n) <> PIdle -> ph (Rn s n) <> POver -> n <> 0 -> (now s <= E n)%N).
+  { intros H1 H2 H0.
+    pose proof (k_act c s (ic_3 c s (id_c c s (ie_d c s (sd_E c s SD)))) n H0 Hs H1 H2) as Hst.
+    pose proof (s_job c S E s SC n Hn H0) as H. unfold on_schedule in H. rewrite Hst in H. tauto. }
+  split; [apply (idle_Sb c S E s SD SC n Hn Hs)|].
+  split; [intros Ep; apply (begun_Sb c S E s HS SD SC n Hn Hs); rewrite Ep; discriminate|].
+  split; [apply (over_Ef c S E s SD SC n Hn Hs)|].
+  split; [apply (s_ph c S E s SC n)|].
+  split; [apply (begun_Sb c S E s HS SD SC n Hn Hs)|].
+  split.
+  { intros Ep. destruct (Nat.eq_dec n 0) as [->|H0]; [apply (s_root_main c S E s SC Ep)|].
+    apply Hrun; [rewrite Ep; discriminate|rewrite Ep; discriminate|exact H0]. }
+  intros Hex.
+  assert (Hle : (E n <= now s)%N).
+  { apply (Ef_le c S E HS n (now s) Hn Hs).
+    - apply (begun_Sb c S E s HS SD SC n Hn Hs). destruct Hex as [H|H]; rewrite H; discriminate.
+    - intros m Hm. pose proof (proj1 (In_members c n m) Hm) as (Hml & _ & Hm0).
+      apply (done_Ef c S E s SC m Hml Hm0).
+      apply (exit_members_done c S E s P SD SC n m); [|exact Hm]. destruct Hex as [H|H]; auto. }
+  split; [exact Hle|]. intros H0.
+  assert (Hge : (now s <= E n)%N) by (apply Hrun; [destruct Hex as [H|H]; rewrite H; discriminate|destruct Hex as [H|H]; rewrite H; discriminate|exact H0]).
+  lia.
+Qed.
+
+(* ------------------------------------------------------------------ trees without timeouts *)
 
 (* C10/C12 in closed form: as long as no critical job has reached the instant at which it raises,
    every job is where the schedule says *)
@@ -1118,7 +1392,7 @@ Theorem runs_on_schedule c S E h s :
   Reach 3 c h s -> calm c E s ->
   forall x, x < njobs c -> x <> 0 -> on_schedule c S E s x.
 Proof.
-  intros W P HS Hr Hc x Hx H0. apply (s_job c S E s (Sch_reach c S E h s W P HS Hr Hc) x Hx H0).
+  intros W P HS. apply (runs_on_schedule_timeouts c S E h s W (plain_plainT c P) HS (plain_slack c S E P)).
 Qed.
 
 Corollary not_started_before c S E h s x :
@@ -1126,10 +1400,7 @@ Corollary not_started_before c S E h s x :
   Reach 3 c h s -> calm c E s -> x < njobs c -> x <> 0 ->
   (now s < S x)%N -> st (Jb s x) = Idle \/ st (Jb s x) = Created.
 Proof.
-  intros W P HS Hr Hc Hx H0 Hlt.
-  pose proof (runs_on_schedule c S E h s W P HS Hr Hc x Hx H0) as H. unfold on_schedule in H.
-  pose proof (Ef_ge_Sb c S E HS x Hx) as Hse.
-  destruct (st (Jb s x)); auto; try contradiction; exfalso; lia.
+  intros W P HS. apply (not_started_before_timeouts c S E h s x W (plain_plainT c P) HS (plain_slack c S E P)).
 Qed.
 
 Corollary running_between c S E h s x :
@@ -1137,9 +1408,7 @@ Corollary running_between c S E h s x :
   Reach 3 c h s -> calm c E s -> x < njobs c -> x <> 0 ->
   (S x < now s)%N -> (now s < E x)%N -> st (Jb s x) = Running.
 Proof.
-  intros W P HS Hr Hc Hx H0 Hlt1 Hlt2.
-  pose proof (runs_on_schedule c S E h s W P HS Hr Hc x Hx H0) as H. unfold on_schedule in H.
-  destruct (st (Jb s x)); auto; try contradiction; exfalso; lia.
+  intros W P HS. apply (running_between_timeouts c S E h s x W (plain_plainT c P) HS (plain_slack c S E P)).
 Qed.
 
 Corollary done_after c S E h s x :
@@ -1147,10 +1416,7 @@ Corollary done_after c S E h s x :
   Reach 3 c h s -> calm c E s -> x < njobs c -> x <> 0 ->
   (E x < now s)%N -> is_done (st (Jb s x)) = true.
 Proof.
-  intros W P HS Hr Hc Hx H0 Hlt.
-  pose proof (runs_on_schedule c S E h s W P HS Hr Hc x Hx H0) as H. unfold on_schedule in H.
-  pose proof (Ef_ge_Sb c S E HS x Hx) as Hse.
-  destruct (st (Jb s x)); auto; try contradiction; exfalso; lia.
+  intros W P HS. apply (done_after_timeouts c S E h s x W (plain_plainT c P) HS (plain_slack c S E P)).
 Qed.
 
 (* nothing is ever cancelled in a calm run of a plain tree *)
@@ -1161,13 +1427,9 @@ Corollary calm_never_cancels c S E h s :
   (forall x, x < njobs c -> x <> 0 -> st (Jb s x) <> Cancelling /\ st (Jb s x) <> Cancelled) /\
   (forall x, crit_exc c s x = false).
 Proof.
-  intros W P HS Hr Hc. pose proof (Sch_reach c S E h s W P HS Hr Hc) as SC.
-  split; [apply (s_cp c S E s SC)|]. split; [apply (s_rc c S E s SC)|].
-  split; [intros x Hx H0; apply (not_cancelled c S E s SC x Hx H0)|apply (s_nce c S E s SC)].
+  intros W P HS. apply (calm_never_cancels_timeouts c S E h s W (plain_plainT c P) HS (plain_slack c S E P)).
 Qed.
 
-(* the run of every scheduler, the root included: it begins at S n, its main loop lasts until E n,
-   and its exit path (tidy, shutdown) takes no time *)
 Theorem runs_phases_on_schedule c S E h s :
   wf c = true -> plain c = true -> is_schedule c S E ->
   Reach 3 c h s -> calm c E s ->
@@ -1183,32 +1445,15 @@ Theorem runs_phases_on_schedule c S E h s :
      (E n <= now s)%N /\ (n <> 0 -> now s = E n)).
 Proof.
   intros W P HS Hr Hc n Hn Hs.
-  pose proof (Sch_reach c S E h s W P HS Hr Hc) as SC.
-  pose proof (Std_reach c h s W Hr) as SD.
-  assert (Hrun : ph (Rn s n) <> PIdle -> ph (Rn s n) <> POver -> n <> 0 -> (now s <= E n)%N).
-  { intros H1 H2 H0.
-    pose proof (k_act c s (ic_3 c s (id_c c s (ie_d c s (sd_E c s SD)))) n H0 Hs H1 H2) as Hst.
-    pose proof (s_job c S E s SC n Hn H0) as H. unfold on_schedule in H. rewrite Hst in H. tauto. }
-  split; [apply (idle_Sb c S E s SD SC n Hn Hs)|].
-  split; [intros Ep; apply (begun_Sb c S E s HS SD SC n Hn Hs); rewrite Ep; discriminate|].
-  split; [apply (over_Ef c S E s SD SC n Hn Hs)|].
-  split; [apply (s_ph c S E s SC n)|].
-  split; [apply (begun_Sb c S E s HS SD SC n Hn Hs)|].
-  split; [intros Ep H0; apply Hrun; [rewrite Ep; discriminate|rewrite Ep; discriminate|exact H0]|].
-  intros Hex.
-  assert (Hle : (E n <= now s)%N).
-  { apply (Ef_le c S E HS n (now s) Hn Hs).
-    - apply (begun_Sb c S E s HS SD SC n Hn Hs). destruct Hex as [H|H]; rewrite H; discriminate.
-    - intros m Hm. pose proof (proj1 (In_members c n m) Hm) as (Hml & _ & Hm0).
-      apply (done_Ef c S E s SC m Hml Hm0).
-      apply (exit_members_done c S E s P SD SC n m); [|exact Hm]. destruct Hex as [H|H]; auto. }
-  split; [exact Hle|]. intros H0.
-  assert (Hge : (now s <= E n)%N) by (apply Hrun; [destruct Hex as [H|H]; rewrite H; discriminate|destruct Hex as [H|H]; rewrite H; discriminate|exact H0]).
-  lia.
+  destruct (runs_phases_on_schedule_timeouts c S E h s W (plain_plainT c P) HS (plain_slack c S E P) Hr Hc n Hn Hs)
+    as (A1 & A2 & A3 & A4 & A5 & A6 & A7).
+  repeat split; auto; apply A7; assumption.
 Qed.
 
 Print Assumptions runs_on_schedule.
 Print Assumptions runs_phases_on_schedule.
+Print Assumptions runs_on_schedule_timeouts.
+Print Assumptions timeouts_never_fire.
 
 (* ------------------------------------------------------------------ the boolean check of a schedule *)
 
@@ -1301,3 +1546,90 @@ Module Example.
     intros x Hx H0. apply (runs_on_schedule ex_c ex_S ex_E (firstn 9 ex_h) s ex_wf ex_plain ex_sched Er (ex_calm s)); assumption.
   Qed.
 End Example.
+
+(* ------------------------------------------------------------------ non-vacuity with timeouts *)
+
+Module ExampleT.
+  (* the tree of [Example] with timeouts that are not reached: root 7s (ends at 6), scheduler 2
+     5s from its beginning at 2 (ends at 6 < 7), scheduler 4 2s from its beginning at 5 (ends at 6 < 7) *)
+  Definition ex_c : cfg :=
+    mkCfg
+      [mkJ 0 true true false [] None ORet 0%N None 0 (Some 7%N) None;
+       mkJ 0 false true false [] (Some 2%N) ORet 0%N (Some 0%N) 0 None None;
+       mkJ 0 true true false [1] None ORet 0%N None 0 (Some 5%N) None;
+       mkJ 2 false false false [] (Some 3%N) OExc 0%N (Some 0%N) 0 None None;
+       mkJ 2 true true false [3] None ORet 0%N None 0 (Some 2%N) None;
+       mkJ 4 false true false [] (Some 1%N) ORet 0%N (Some 0%N) 0 None None]
+      false.
+
+  Definition ex_h : list event :=
+    [EBegin 0 [OCreate 1; OWaitCall 0 KMain [1] (Some 7%N)];
+     EStart 1;
+     ETick 2%N;
+     EFinish 1 ORet;
+     EWake 0 KMain [1] [OCreate 2; OWaitCall 0 KMain [2] (Some 5%N)];
+     EBegin 2 [OCreate 3; OWaitCall 2 KMain [3] (Some 5%N)];
+     EStart 3;
+     ETick 5%N;
+     EFinish 3 OExc;
+     EWake 2 KMain [3] [OCreate 4; OWaitCall 2 KMain [4] (Some 2%N)];
+     EBegin 4 [OCreate 5; OWaitCall 4 KMain [5] (Some 2%N)];
+     EStart 5;
+     ETick 6%N;
+     EFinish 5 ORet;
+     EWake 4 KMain [5] [OSdBegin 4 true; OHCreate 5; OWaitCall 4 KShut [5] None];
+     EHStart 5;
+     EHEnd 5;
+     EWake 4 KShut [] [OSdEnd 4 SRTrue; OEnd 4 VTrue];
+     EWake 2 KMain [4] [OSdBegin 2 true; OHCreate 3; OHCreate 4; OWaitCall 2 KShut [3; 4] None];
+     EHStart 3;
+     EHEnd 3;
+     ESdStart 4 [OSdBegin 4 false; OSdEnd 4 SRNone];
+     EWake 2 KShut [] [OSdEnd 2 SRTrue; OEnd 2 VTrue];
+     EWake 0 KMain [2] [OSdBegin 0 true; OHCreate 1; OHCreate 2; OWaitCall 0 KShut [1; 2] None];
+     EHStart 1;
+     EHEnd 1;
+     ESdStart 2 [OSdBegin 2 false; OSdEnd 2 SRNone];
+     EWake 0 KShut [] [OSdEnd 0 SRTrue; OEnd 0 VTrue]].
+
+  Definition ex_S : nat -> N := tab (fst (solve ex_c)).
+  Definition ex_E : nat -> N := tab (snd (solve ex_c)).
+
+  Lemma ex_wf : wf ex_c = true. Proof. reflexivity. Qed.
+  Lemma ex_not_plain : plain ex_c = false. Proof. reflexivity. Qed.
+  Lemma ex_plainT : plainT ex_c = true. Proof. reflexivity. Qed.
+  Lemma ex_accept : accept 3 ex_c ex_h = true. Proof. vm_compute. reflexivity. Qed.
+  Lemma ex_sched : is_schedule ex_c ex_S ex_E.
+  Proof. apply is_scheduleb_sound. vm_compute. reflexivity. Qed.
+  Lemma ex_slack : slack ex_c ex_S ex_E.
+  Proof. apply slackb_sound. vm_compute. reflexivity. Qed.
+  Lemma ex_values : map ex_S [0; 1; 2; 3; 4; 5] = [0; 0; 2; 2; 5; 5]%N /\
+                    map ex_E [0; 1; 2; 3; 4; 5] = [6; 2; 6; 5; 6; 6]%N.
+  Proof. vm_compute. split; reflexivity. Qed.
+
+  Lemma ex_calm s : calm ex_c ex_E s.
+  Proof.
+    intros x Hx Hb. exfalso. unfold njobs in Hx. cbn in Hx.
+    do 6 (destruct x as [|x]; [vm_compute in Hb; discriminate|]). lia.
+  Qed.
+
+  (* at time 5, the three runs are in their main loops, each with its own expiration (all 7 here:
+     0 + 7, 2 + 5, 5 + 2), and every job is on schedule *)
+  Example ex_mid : exists s, Reach 3 ex_c (firstn 12 ex_h) s /\ now s = 5%N /\
+    ph (Rn s 0) = PMain /\ ph (Rn s 2) = PMain /\ ph (Rn s 4) = PMain /\
+    expi (Rn s 4) = Some (ex_S 4 + 2)%N /\
+    forall x, x < 6 -> x <> 0 -> on_schedule ex_c ex_S ex_E s x.
+  Proof.
+    destruct (run 3 ex_c init (firstn 12 ex_h)) as [s|] eqn:Er; [|vm_compute in Er; discriminate].
+    exists s. split; [exact Er|].
+    assert (Es : Some s = run 3 ex_c init (firstn 12 ex_h)) by (symmetry; exact Er).
+    vm_compute in Es. injection Es as Es.
+    assert (E4 : ph (Rn s 4) = PMain) by (rewrite Es; reflexivity).
+    split; [rewrite Es; reflexivity|]. split; [rewrite Es; reflexivity|].
+    split; [rewrite Es; reflexivity|]. split; [exact E4|]. split.
+    - destruct (timeouts_never_fire ex_c ex_S ex_E (firstn 12 ex_h) s ex_wf ex_plainT ex_sched ex_slack Er (ex_calm s) 4)
+        as [_ H]; [unfold njobs; cbn; lia|reflexivity|]. apply (H E4). reflexivity.
+    - intros x Hx H0.
+      apply (runs_on_schedule_timeouts ex_c ex_S ex_E (firstn 12 ex_h) s ex_wf ex_plainT ex_sched ex_slack Er (ex_calm s)); assumption.
+  Qed.
+End ExampleT.
